@@ -500,6 +500,59 @@ def run(tier, seed):
                 ops.append(("empty",))
         return ops
 
+    # ---- two live containers: adding one container to another must not tie their later histories together
+    G2 = "two live containers"
+    for i in range(120 if quick else 2500):
+        conts = [NoteContainer(), NoteContainer()]
+        models = [Model(), Model()]
+        hist = ()
+        pool = ["C", "E", "G", "B", "D#", "Eb", "A"]
+        for j in range(14 if quick else 24):
+            w = rnd.randrange(2)
+            r = rnd.random()
+            R.case(G2, (i, j) if j % 7 == 6 else None)
+            if r < 0.35:
+                # feed the OTHER live container (not a throw-away copy) into this one
+                form = rnd.choice(("add_notes", "plus", "ctor"))
+                hist = hist + ((form + "(other live container)", w),)
+                other = conts[1 - w]
+                snapshot = observed(other)
+
+                def feed(form=form, w=w, other=other):
+                    if form == "add_notes":
+                        conts[w].add_notes(other)
+                    elif form == "plus":
+                        conts[w] = conts[w] + other
+                    else:
+                        conts[w] = NoteContainer(other)
+                ok, _ = R.guard(G2, "holds-exactly-the-pitches-a-set-model-predicts", hist, feed)
+                if not ok:
+                    break
+                if form == "ctor":
+                    models[w] = Model()
+                for n, o in snapshot:
+                    models[w].add_exact(n, o)
+            else:
+                op = rand_history(1, pool, [3, 4, 5], 0.0)[-1]
+                if op[0] == "ctor":
+                    continue
+                hist = hist + ((w, op),)
+                nc2 = step(G2, conts[w], models[w], op, hist)
+                if nc2 is None:
+                    break
+                conts[w] = nc2
+            bad = False
+            for q in (0, 1):
+                obs = observed(conts[q])
+                if not matches(obs, models[q]):
+                    R.fail(G2, "holds-exactly-the-pitches-a-set-model-predicts",
+                           "container %d holds %r, its set model predicts %r (an operation on the other container "
+                           "changed it?)" % (q, obs, sorted(models[q].s)), hist)
+                    bad = True
+                resync(models[q], obs)
+            if bad:
+                break
+
     nseq, length = (250, 40) if quick else (4000, 60)
     for i in range(nseq):
         mode = i % 3
